@@ -931,7 +931,11 @@ func (g *gen) cmpctFlow(s *script) {
 			sids = append(sids, shortID(k0, k1, b.Txs[i].wtxid()))
 		}
 		p := g.cmpct(hdr, nonce, sids, []prefilled{{0, b.Txs[0].ser()}})
-		switch r.Intn(5) {
+		switch r.Intn(6) {
+		case 5: // a second prefilled transaction whose differential index is individually in range
+			d := uint64(len(sids)) + uint64(r.Intn(2))
+			p = g.cmpct(hdr, nonce, sids, []prefilled{{0, b.Txs[0].ser()}, {d, g.oddTx().ser()}})
+			add(wireMsg{Cmd: "cmpctblock", Pl: p.b, Tag: "flow/prefilled-index-sum"})
 		case 0:
 			pl, tag := g.mutCount(p)
 			add(wireMsg{Cmd: "cmpctblock", Pl: pl, Tag: "flow/" + tag})
